@@ -213,7 +213,16 @@ Definition submit (k : kind) : op := OSend (funnel_chan (funnel_of k)) (kind_cod
           posters; perPoster; publishers; localPerPublisher; globalPerPublisher; conns; msgsPerConn;
           mode;                       0 plain | 1 the service actor is crashed and restarted first
                                       | 2 the same props is spawned twice (two actors, one run service)
-          ovLocal; ovGlobal; ovPost; ovTimer; ovSessMsg; ovRequest]
+          ovLocal; ovGlobal; ovPost; ovTimer; ovSessMsg; ovRequest;
+          edgeRounds]                 rounds of boundary work: timers that are already due (delay 0,
+                                      negative), 1ns, repeating; work produced from INSIDE a posted
+                                      closure / timer callback / listener / request handler of the
+                                      service itself.  Per round: 1 request, 18 timer callbacks,
+                                      5 posted closures, 5 local events, 1 global event.
+   A timer's delay does not appear in the model: whatever it is, the expired timer object
+   is enqueued on FTimer; work produced from inside a handler is an ordinary producer action
+   taken while the consumer is at PRun (C04_producers_never_run_handlers,
+   C04_handler_runs_to_completion).
    The ov* entries are an OVERFLOW phase that comes first: the service is held inside a handler
    while foreign goroutines produce that many items of the kind - more than the queue holds
    (event queue, scheduler queue, timer queue: 999).  Producers block on a full queue, except
@@ -226,9 +235,10 @@ Definition ov_sess (cfg : list Z) : Z := if 0 <? cfgn cfg 19 then 1 else 0.
 
 Definition base_counts (cfg : list Z) : list Z :=
   let n := cfgn cfg in
-  [n 0%nat * n 1%nat; n 0%nat * n 2%nat; n 3%nat; n 4%nat; n 5%nat * n 6%nat;
-   n 7%nat * n 8%nat + n 3%nat + n 4%nat;
-   n 9%nat * n 10%nat; n 9%nat * n 11%nat; n 12%nat; n 12%nat; n 12%nat * n 13%nat].
+  let e := n 21%nat in
+  [n 0%nat * n 1%nat + e; n 0%nat * n 2%nat; n 3%nat; n 4%nat; n 5%nat * n 6%nat + 18 * e;
+   n 7%nat * n 8%nat + n 3%nat + n 4%nat + 5 * e;
+   n 9%nat * n 10%nat + 5 * e; n 9%nat * n 11%nat + e; n 12%nat; n 12%nat; n 12%nat * n 13%nat].
 
 Definition ov_counts (cfg : list Z) : list Z :=
   let n := cfgn cfg in
